@@ -505,8 +505,10 @@ func execDescs(c px.Context, op string, args []sx.Sexp) core.Result {
 	if !(op == "descs" && len(args) == 2 || op == "descx" && len(args) == 4 && !args[2].IsList && args[3].IsList) {
 		return core.Result{Out: "bad-op", Pred: "FAIL harness-bad-op " + op}
 	}
-	if sexpHasAlias(args[0]) || sexpHasAlias(args[1]) {
-		return core.Result{Out: "alias", Pred: "n/a", Tags: tags}
+	// a term with a user alias: the model reads (alias T) as its alias marker; only the structure is compared (the text names aliases)
+	hasAlias := sexpHasAlias(args[0]) || sexpHasAlias(args[1])
+	if hasAlias {
+		tags = append(tags, "alias:yes")
 	}
 	var env *lat.Env
 	if f := lat.Safely(func() { env = lat.EnvOf(c) }); f != nil {
@@ -552,6 +554,9 @@ func execDescs(c px.Context, op string, args []sx.Sexp) core.Result {
 		}
 		if len(st) == 0 {
 			return "empty", st, ""
+		}
+		if hasAlias {
+			return renderItems(st), st, ""
 		}
 		return renderItems(st) + " ;; " + renderItems(ds), st, ""
 	}
@@ -599,10 +604,13 @@ func execDescs(c px.Context, op string, args []sx.Sexp) core.Result {
 		}
 		// C19_typeMismatch_real_partial / C19_patternMismatch_real_partial: nothing merged, plain actual type => the reported
 		// expected type does not accept the reported actual type
-		if (d.kind == "tm" || d.kind == "pm") && d.expT != nil && noMergeT(e.Ty) && plainT(a.Ty) {
+		if (d.kind == "tm" || d.kind == "pm") && d.expT != nil && !hasAlias && noMergeT(e.Ty) && plainT(a.Ty) {
 			if ok, f := lat.SafeAsg(d.expT, d.actT); f == nil && ok {
 				return res("FAIL desc-unreal-" + d.kind + " the reported expected type accepts the reported actual type: " + d.String())
 			}
+		}
+		if hasAlias {
+			continue // the walk of `reach` below is over the alias-free terms (an aliased actual type is never descended into)
 		}
 		if why := unreal(env, e.Ty, a.Ty, d); why != "" {
 			return res("FAIL desc-unreal-" + d.kind + " " + why + ": " + d.String())
